@@ -15,6 +15,9 @@ import time as _time
 
 GRID = 0.1
 
+import itertools
+SEQ = itertools.count(1)      # global order of harness-observed events
+
 
 class _NullSelector(selectors.BaseSelector):
     def __init__(self, loop_ref):
@@ -64,11 +67,15 @@ class FakeTransport(asyncio.DatagramTransport):
         FakeTransport._next_port[0] += 1
         self.local = ("10.0.0.2", FakeTransport._next_port[0])
         self.sent = []
+        self.sent_by = []
+        self.sent_n = []
         self.opened_by = _task_name()
         self.id = len(loop.transports) + 1
 
     def sendto(self, data, addr=None):
         self.sent.append((self.loop.time(), bytes(data), addr))
+        self.sent_by.append(_task_name())
+        self.sent_n.append(next(SEQ))
         if self.closed:
             return
         self.loop.net.client_send(self, bytes(data), addr)
@@ -144,10 +151,15 @@ class VLoop(asyncio.SelectorEventLoop):
             base = g
         else:
             base = when
-        when2 = base + self._rank(base) * 1e-7 + (self._seq % 1000) * 1e-10
+        when2 = base + self._rank(base) * 1e-7 + (self._seq % 1000) * 1e-11
         if when2 < self._vtime:
             when2 = self._vtime
         return super().call_at(when2, callback, *args, context=context)
+
+    def call_at_raw(self, when, callback, *args):
+        """schedule at an exact virtual time (no grid snapping, no rank offset): used by the
+        harness to place an arrival between two task wake-ups of the same tick"""
+        return super().call_at(when, callback, *args)
 
     def _rank(self, base):
         try:
